@@ -659,4 +659,129 @@ example (k : StreamKind) (isLazy : Bool) :
 example : ((savedOf (objOf exNestedM)).obj.segs.map fun g => (g.offset, g.filesz)) =
     [(0x1000#64, 0x28#64), (0x1020#64, 8#64)] := by decide +kernel
 
+/-! ### 5. the hypotheses on the *saved* object, evaluated on the layout of the *input* object
+
+`NoWrap64` and `AddrSeparate` speak about the object `save` leaves.  Like `layoutNW` / `layoutDomB` they can
+be evaluated on the input object by running the layout (`layoutOf (preSave o)`, Lemmas/Layout.lean): the
+saved sections carry the header fields of the layout result (`C04.save_secs_hdr`), the saved segments are
+the layout result's. -/
+
+/-- the header fields of a section the layout theorems talk about (`hdrOf`) -/
+abbrev HKey := BitVec 64 × BitVec 64 × BitVec 32 × Nat × BitVec 64 × BitVec 64 × BitVec 64 × Bool
+
+def nwKey (k : HKey) : Bool :=
+  decide (k.2.2.2.2.1.toNat + k.2.1.toNat < 18446744073709551616) &&
+    decide (k.1.toNat + k.2.1.toNat < 18446744073709551616)
+
+def noWrap64K (ks : List HKey) (segs : List Seg) : Bool :=
+  ks.all nwKey && segs.all fun g =>
+    decide (g.vaddr.toNat + g.memsz.toNat < 18446744073709551616) &&
+      decide (g.offset.toNat + g.filesz.toNat < 18446744073709551616)
+
+theorem noWrap64_of_K {secs : List SecBuf} {segs : List Seg} (h : noWrap64K (secs.map hdrOf) segs = true) :
+    NoWrap64 secs segs := by
+  unfold noWrap64K at h
+  simp only [Bool.and_eq_true, List.all_eq_true, List.mem_map, forall_exists_index, and_imp,
+    forall_apply_eq_imp_iff₂, decide_eq_true_eq] at h
+  refine ⟨fun b hb => ?_, fun g hg => h.2 g hg⟩
+  have := h.1 b hb
+  unfold nwKey hdrOf at this
+  simp only [Bool.and_eq_true, decide_eq_true_eq] at this
+  exact this
+
+def addrSeparateK (ks : List HKey) (segs : List Seg) : Bool :=
+  segs.all fun g => (List.range ks.length).all fun i =>
+    match ks[i]? with
+    | some k =>
+      !(k.2.2.2.2.2.1.toNat / Spec.SHF_ALLOC % 2 == 1) || g.secs.any (fun idx => idx.toNat == i) ||
+        !(decide (g.vaddr.toNat ≤ k.2.2.2.2.1.toNat) &&
+          decide (k.2.2.2.2.1.toNat + k.2.1.toNat ≤ g.vaddr.toNat + g.memsz.toNat) &&
+          decide (k.2.2.2.2.1.toNat < g.vaddr.toNat + g.memsz.toNat))
+    | none => true
+
+theorem addrSeparate_of_K {secs : List SecBuf} {segs : List Seg} (h : addrSeparateK (secs.map hdrOf) segs = true) :
+    AddrSeparate secs segs := by
+  unfold addrSeparateK at h
+  simp only [List.all_eq_true, List.length_map] at h
+  intro g hg i hi b hb hal hnm
+  have := h g hg i hi
+  rw [List.getElem?_map, show secs[i]? = some b from hb] at this
+  simp only [Option.map_some, hdrOf, Bool.or_eq_true, Bool.not_eq_true', List.any_eq_true, beq_iff_eq] at this
+  rcases this with (h1 | ⟨idx, hidx, e⟩) | h3
+  · unfold isAlloc at hal; rw [hal] at h1; cases h1
+  · exact absurd e (hnm idx hidx)
+  · unfold inAddrRange; exact h3
+
+/-- `NoWrap64` of the object `save` will leave, evaluated on the input object -/
+def noWrap64InB (o : Obj) (hd : Bytes) : Bool :=
+  match layoutOf (preSave o) hd with
+  | .ok (some res) => noWrap64K (res.secs.map hdrOf) res.segs
+  | _ => true
+
+/-- `AddrSeparate` of the object `save` will leave, evaluated on the input object -/
+def addrSeparateInB (o : Obj) (hd : Bytes) : Bool :=
+  match layoutOf (preSave o) hd with
+  | .ok (some res) => addrSeparateK (res.secs.map hdrOf) res.segs
+  | _ => true
+
+/-- **noWrap64_of_input** : `NoWrap64` of the saved object from a decidable hypothesis on the input
+    object (both classes) -/
+theorem noWrap64_of_input {o : Obj} {os : OStream} {r : SaveRes} {hd : Bytes}
+    (hs : save o os = .ok r) (hok : r.ok = true) (hh : o.hdr = some hd) (h : noWrap64InB o hd = true) :
+    NoWrap64 r.obj.secs r.obj.segs := by
+  obtain ⟨res, hl, hsegs, -, he⟩ := C04.save_secs_hdr o os r hd hs hok hh
+  unfold noWrap64InB at h
+  rw [hl] at h
+  simp only at h
+  rw [← he, ← hsegs] at h
+  exact noWrap64_of_K h
+
+theorem addrSeparate_of_input {o : Obj} {os : OStream} {r : SaveRes} {hd : Bytes}
+    (hs : save o os = .ok r) (hok : r.ok = true) (hh : o.hdr = some hd) (h : addrSeparateInB o hd = true) :
+    AddrSeparate r.obj.secs r.obj.segs := by
+  obtain ⟨res, hl, hsegs, -, he⟩ := C04.save_secs_hdr o os r hd hs hok hh
+  unfold addrSeparateInB at h
+  rw [hl] at h
+  simp only at h
+  rw [← he, ← hsegs] at h
+  exact addrSeparate_of_K h
+
+/-- **save_load_save_flat_input** (C06) : `save_load_save_flat` with EVERY hypothesis on the object to be
+    saved (`ResaveDomain`, `noWrap64InB`, `addrSeparateInB` — all decidable) and on the stream written to. -/
+theorem save_load_save_flat_input {o : Obj} {os : OStream} {r : SaveRes} {hd : Bytes}
+    (hs : save o os = .ok r) (hok : r.ok = true) (hg : os.Good) (hos : os.content.length < 9223372036854775808)
+    (D : ResaveDomain o hd) (hw : noWrap64InB o hd = true) (hsep : addrSeparateInB o hd = true)
+    (o2 : Obj) (k : StreamKind) (isLazy : Bool) (htr2 : o2.trans = []) :
+    ∃ (r2 : LoadRes) (r3 : SaveRes), load o2 { data := r.os.content, kind := k } isLazy = .ok r2 ∧ r2.ok = true ∧
+      save r2.obj os = .ok r3 ∧ r3.ok = true ∧ r3.os = r.os :=
+  save_load_save_flat hs hok hg hos D (noWrap64_of_input hs hok D.hdr hw) (addrSeparate_of_input hs hok D.hdr hsep)
+    o2 k isLazy htr2
+
+/-- **validate_silent_reloaded_flat_input** (C20) / **loaded_satisfies_Loaded_flat_input** (C05) : the `_flat`
+    theorems of Props/Compose.lean with `NoWrap64` replaced by the input-side `noWrap64InB` -/
+theorem validate_silent_reloaded_flat_input {o : Obj} {os : OStream} {r : SaveRes} {hd : Bytes}
+    (hs : save o os = .ok r) (hok : r.ok = true) (hg : os.Good) (hos : os.content.length < 9223372036854775808)
+    (D : FlatDomain o hd) (hw : noWrap64InB o hd = true)
+    (o2 : Obj) (k : StreamKind) (isLazy : Bool) (htr2 : o2.trans = []) :
+    validate r.obj = [] ∧
+    ∃ r2 : LoadRes, load o2 { data := r.os.content, kind := k } isLazy = .ok r2 ∧ r2.ok = true ∧
+      validate r2.obj = [] :=
+  validate_silent_reloaded_flat hs hok hg hos D (noWrap64_of_input hs hok D.hdr hw) o2 k isLazy htr2
+
+theorem loaded_satisfies_Loaded_flat_input {o : Obj} {os : OStream} {r : SaveRes} {hd : Bytes}
+    (hs : save o os = .ok r) (hok : r.ok = true) (hg : os.Good) (hos : os.content.length < 9223372036854775808)
+    (D : FlatDomain o hd) (hw : noWrap64InB o hd = true)
+    (o2 : Obj) (k : StreamKind) (htr2 : o2.trans = []) :
+    ∃ r2 : LoadRes, load o2 { data := r.os.content, kind := k } false = .ok r2 ∧ r2.ok = true ∧
+      r2.obj.cls = o.cls ∧ r2.obj.enc = o.enc ∧ r2.obj.trans = [] ∧ r2.obj.hdr = r.obj.hdr ∧
+      C05.Loaded o.cls o.enc r2.obj.secs r2.obj.segs r.os.content :=
+  loaded_satisfies_Loaded_flat hs hok hg hos D (noWrap64_of_input hs hok D.hdr hw) o2 k htr2
+
+/-- non-vacuity: the two example objects meet the input-side forms -/
+example : noWrap64InB (objOf exTwoM) ((objOf exTwoM).hdr.getD []) = true ∧
+    addrSeparateInB (objOf exTwoM) ((objOf exTwoM).hdr.getD []) = true ∧
+    noWrap64InB (objOf exFlatM) ((objOf exFlatM).hdr.getD []) = true ∧
+    addrSeparateInB (objOf exFlatM) ((objOf exFlatM).hdr.getD []) = true := by
+  refine ⟨by decide +kernel, by decide +kernel, by decide +kernel, by decide +kernel⟩
+
 end ElfioVerif.Compose
